@@ -20,7 +20,7 @@ pub struct Outcome {
     pub notes: Vec<&'static str>,
 }
 
-fn push(f: &mut Vec<Fail>, sig: impl Into<String>, msg: String) {
+pub fn push(f: &mut Vec<Fail>, sig: impl Into<String>, msg: String) {
     let sig = sig.into();
     if !f.iter().any(|x| x.signature == sig) {
         f.push(Fail::new(sig, msg));
@@ -100,7 +100,7 @@ fn numeq(a: V3, b: V3) -> bool {
 // root, legacy parser
 
 /// `parsed`: `p` came out of the parser (defect attribution applies); false: `p` came out of the converter
-fn cmp_root_legacy(p: &WmoRoot, c: &RootCase, d: &RootDerived, w: &RootWalk, parsed: bool, f: &mut Vec<Fail>) {
+pub fn cmp_root_legacy(p: &WmoRoot, c: &RootCase, d: &RootDerived, w: &RootWalk, parsed: bool, f: &mut Vec<Fail>) {
     let ver = VERSIONS[c.version as usize];
     if p.version.to_raw() != ver.to_raw() {
         push(f, "root-version-number-differs", format!("parsed raw version {} for {}", p.version.to_raw(), VNAMES[c.version as usize]));
